@@ -26,6 +26,8 @@ def match_multiset(a, b, tol):
 
 
 class Tdmd(ApiImmut):
+    freeze = True  # the oracle sees the arguments as they were at call entry; arrays / lists rewritten by the call are reported
+    input_prop = P
     def __init__(self, name):
         ApiImmut.__init__(self, 'tdmd.' + name)
         self.name = name
